@@ -96,7 +96,7 @@ class _Leaf:
         v = self.table.get((self.ptr, self.kh))
         if v is None:
             raise RpcError('big map value not found')
-        return {'int': str(v)}
+        return v            # the Micheline of the stored value
 
 
 class _Idx:
@@ -128,46 +128,54 @@ def opt_src(z):
 RECORD = 'DIG 2; SWAP; CONS; SWAP'       # result bm obs  ->  bm (result :: obs)
 
 
-def instr_src(ts, ins):
+def instr_src(ts, ins, vt):
     op, k = ins[0], V.value_src(ins[1])
     if op == 'update':
-        return f'PUSH (option int) {opt_src(ins[2])}; PUSH {ts} {k}; UPDATE'
+        return f'{vt.push_opt(ins[2])}; PUSH {ts} {k}; UPDATE'
     if op == 'gau':
-        return f'PUSH (option int) {opt_src(ins[2])}; PUSH {ts} {k}; GET_AND_UPDATE; {RECORD}'
+        return f'{vt.push_opt(ins[2])}; PUSH {ts} {k}; GET_AND_UPDATE; {RECORD}'
     if op == 'get':
         return f'DUP; PUSH {ts} {k}; GET; {RECORD}'
-    return f'DUP; PUSH {ts} {k}; MEM; IF {{ PUSH (option int) (Some 1) }} {{ PUSH (option int) (Some 0) }}; {RECORD}'
+    # MEM answers are recorded as Some <literal 1> / Some <literal 0> of the value type
+    return f'DUP; PUSH {ts} {k}; MEM; IF {{ {vt.push_opt(1)} }} {{ {vt.push_opt(0)} }}; {RECORD}'
 
 
-def contract_src(t, script):
+def contract_src(t, script, vt=V.VT_INT):
     ts = V.type_src(t)
-    body = '; '.join(instr_src(ts, i) for i in script)
-    return (f'parameter unit; storage (pair (big_map {ts} int) (list (option int))); '
+    if vt.ticket:
+        # non-duplicable values: updates only, then ONE consuming MEM whose answer is the only observation;
+        # the storage gets a fresh empty big_map back
+        body = '; '.join(instr_src(ts, i, vt) for i in script[:-1])
+        k = V.value_src(script[-1][1])
+        return (f'parameter unit; storage (pair (big_map {ts} {vt.src}) (list bool)); '
+                f'code {{ CDR; UNPAIR; {body + "; " if body else ""}PUSH {ts} {k}; MEM; CONS; EMPTY_BIG_MAP {ts} {vt.src}; PAIR; NIL operation; PAIR }}')
+    body = '; '.join(instr_src(ts, i, vt) for i in script)
+    return (f'parameter unit; storage (pair (big_map {ts} {vt.src}) (list (option {vt.src}))); '
             f'code {{ CDR; UNPAIR; {body + "; " if body else ""}PAIR; NIL operation; PAIR }}')
 
 
-def run_impl(t, universe, ptr, chain, lit, script):
-    """-> (observations, diff dict, storage) or a failure string. chain: {canon key: (key, value)}."""
+def run_impl(t, universe, ptr, chain, lit, script, vt=V.VT_INT):
+    """-> (observations, diff dict, storage) or a failure string. chain: {canon key: (key, value code)}."""
     from pytezos.michelson.parse import michelson_to_micheline
     from pytezos.michelson.repl import Interpreter
-    table = {(ptr, script_expr(k)): v for k, v in chain.values()} if ptr is not None else {}
+    table = {(ptr, script_expr(k)): vt.micheline(v) for k, v in chain.values()} if ptr is not None else {}
     shell = StubShell(table)
     if ptr is not None:
         bm = {'int': str(ptr)}
     else:
-        bm = [{'prim': 'Elt', 'args': [V.value_micheline(k), {'int': str(z)}]} for k, z in lit]
+        bm = [{'prim': 'Elt', 'args': [V.value_micheline(k), vt.micheline(z)]} for k, z in lit]
     storage = {'prim': 'Pair', 'args': [bm, []]}
-    src = contract_src(t, script)
+    src = contract_src(t, script, vt)
     ok, res = lib.call(Interpreter.run_code, {'prim': 'Unit'}, storage, michelson_to_micheline(src), shell=shell, block_id='head')
     if not ok:
         return f'run_code raised {type(res).__name__}: {res}'[:300], src
     operations, new_storage, lazy_diff, stdout, error = res
     if error is not None:
         return f'run_code failed: {error}'[:300], src
-    return (new_storage, lazy_diff, shell.log, merged_view(t, universe, table, new_storage, lazy_diff)), src
+    return (new_storage, lazy_diff, shell.log, None if vt.ticket else merged_view(t, universe, table, new_storage, lazy_diff, vt)), src
 
 
-def merged_view(t, universe, table, new_storage, lazy_diff):
+def merged_view(t, universe, table, new_storage, lazy_diff, vt=V.VT_INT):
     """pytezos' own application of a diff: BigMapType(id).merge_lazy_diff(lazy_diff) over the on-chain content,
     then GET of every key of the universe. Returns {canon key: value|None} or a failure string."""
     from pytezos.context.impl import ExecutionContext
@@ -175,7 +183,7 @@ def merged_view(t, universe, table, new_storage, lazy_diff):
     from pytezos.michelson.types.base import MichelsonType
 
     def go():
-        ty = MichelsonType.match(michelson_to_micheline(f'big_map {V.type_src(t)} int'))
+        ty = MichelsonType.match(michelson_to_micheline(f'big_map {V.type_src(t)} {vt.src}'))
         new_id = int(new_storage['args'][0]['int'])
         # the node after the operation would serve the old entries under the (possibly new) id
         tbl = {(new_id, kh): v for (_, kh), v in table.items()}
@@ -185,13 +193,13 @@ def merged_view(t, universe, table, new_storage, lazy_diff):
         out = {}
         for k in universe:
             val = merged.get(ty.args[0].from_micheline_value(V.value_micheline(k)), dup=False)
-            out[V.value_src(k)] = None if val is None else int(val)
+            out[V.value_src(k)] = None if val is None else vt.decode(val)
         return out
     ok, r = lib.call(go)
     return r if ok else f'merge_lazy_diff/get raised {type(r).__name__}: {r}'[:200]
 
 
-def decode_impl(t, universe, script, res):
+def decode_impl(t, universe, script, res, vt=V.VT_INT):
     """observations + diff in harness terms, or a string when the output has an unexpected shape."""
     new_storage, lazy_diff, log, merged = res
     uni = {json.dumps(V.value_micheline(v), sort_keys=True): v for v in universe}
@@ -199,8 +207,12 @@ def decode_impl(t, universe, script, res):
         args = new_storage['args']
         obs_list = args[1] if len(args) == 2 else args[1:]
         raw = []
+        if vt.ticket:
+            assert len(obs_list) == 1 and obs_list[0]['prim'] in ('True', 'False')
+            return {'obs': [('bool', obs_list[0]['prim'] == 'True')], 'items': [], 'removed': [], 'action': lazy_diff[0]['diff']['action'],
+                    'id': int(lazy_diff[0]['id']), 'has_types': True, 'merged': None, 'ticket': True}
         for o in obs_list:
-            raw.append(None if o['prim'] == 'None' else int(o['args'][0]['int']))
+            raw.append(None if o['prim'] == 'None' else vt.decode_micheline(o['args'][0]))
         raw.reverse()
         obs = []
         it = iter(raw)
@@ -218,7 +230,7 @@ def decode_impl(t, universe, script, res):
         for u in d['diff']['updates']:
             key = uni.get(json.dumps(lib.canon_micheline(V.norm_out(t, u['key'])), sort_keys=True), ('str', '<<foreign key>>'))
             if 'value' in u:
-                items.append((key, u['key_hash'], int(u['value']['int'])))
+                items.append((key, u['key_hash'], vt.decode_micheline(u['value'])))
             else:
                 removed.append((key, u['key_hash']))
         return {'obs': obs, 'items': items, 'removed': removed, 'action': d['diff']['action'], 'id': int(d['id']),
@@ -248,9 +260,16 @@ def reference(t, ptr, chain, lit, script):
     return obs, cur
 
 
-def oracle(t, universe, ptr, chain, lit, script, out):
-    """The property on the implementation's output. Returns a reason or None."""
+MERGE_FINDING = 'merge-empty-sequence-value'
+
+
+def oracle(t, universe, ptr, chain, lit, script, out, vt=V.VT_INT):
+    """The property on the implementation's output. Returns a reason or None
+    (a reason starting with 'KNOWN:' falls into the class of the listed known finding)."""
     want_obs, final = reference(t, ptr, chain, lit, script)
+    if out.get('ticket'):
+        # non-duplicable values: the single consuming MEM is the observation
+        return None if out['obs'] == want_obs[-1:] else f'MEM on a big_map of tickets answered {out["obs"]}, the layered dictionary gives {want_obs[-1:]}'
     if out['obs'] != want_obs:
         i = next((i for i in range(min(len(want_obs), len(out['obs']))) if out['obs'][i] != want_obs[i]), None)
         return f'observation {i} is {out["obs"][i] if i is not None else "missing"}, the layered dictionary gives {want_obs[i] if i is not None else "another count"}'
@@ -270,6 +289,12 @@ def oracle(t, universe, ptr, chain, lit, script, out):
         return 'the lazy diff applied to the on-chain content does not give the final dictionary'
     want_view = {V.value_src(k): (final[V.canon(k)][1] if V.canon(k) in final else None) for k in universe}
     if out['merged'] != want_view:
+        if not vt.is_int and not vt.ticket and any(vt.micheline(z) == [] for _, _, z in out['items'] if z >= 0):
+            # class of the known finding: the diff sets some key to an empty list/set/map (Micheline [])
+            ok_elsewhere = all(out['merged'].get(k) == w for k, w in want_view.items()
+                               if not (w is not None and vt.micheline(w) == []))
+            if isinstance(out['merged'], dict) and ok_elsewhere:
+                return 'KNOWN:' + MERGE_FINDING
         return f'merge_lazy_diff of the emitted diff over the on-chain big_map answers GET with {out["merged"]}, the final dictionary is {want_view}'
     if ptr is not None and (out['action'] != 'update' or out['id'] != ptr):
         return f'diff of an existing big_map has action {out["action"]} / id {out["id"]}'
@@ -301,8 +326,15 @@ def gen_case(rng, max_len):
         v = _small(V.mutate(rng, t, rng.choice(pool)) if rng.random() < 0.8 else V.gen_value(rng, t))
         if V.canon(v) not in [V.canon(x) for x in pool]:
             pool.append(v)
-    z = lambda: rng.choice([0, 1, -1, 5, rng.randrange(-500, 500)])  # noqa: E731
+    k = rng.random()
+    vt = V.VT_INT if k < 0.35 else (V.VT_TICKET if k > 0.9 else rng.choice(V.VALUE_TYPES[1:]))
+    z = lambda: vt.gen(rng)  # noqa: E731
     mode = rng.random()
+    if vt.ticket:
+        # tickets cannot be stored in a literal or served by the stub: id with empty on-chain content, updates, one MEM
+        script = [('update', rng.choice(pool), z() if rng.random() < 0.7 else None) for _ in range(rng.randrange(0, 8))]
+        script.append(('mem', rng.choice(pool)))
+        return t, pool, rng.choice([0, 7]), {}, [], script, vt
     chain, lit, ptr = {}, [], None
     if mode < 0.6:                      # id backed by on-chain entries: every split on-chain / local arises over the runs
         ptr = rng.choice([0, 7, 7, 123456])
@@ -325,7 +357,7 @@ def gen_case(rng, max_len):
             script.append(('get', key))
         else:
             script.append(('mem', key))
-    return t, pool, ptr, chain, lit, script
+    return t, pool, ptr, chain, lit, script, vt
 
 
 def coq_instr(ins):
@@ -339,8 +371,8 @@ def coq_obs(ob):
     return f'(BOOpt {lib.copt(None if ob[1] is None else cZ(ob[1]))})' if ob[0] == 'opt' else f'(BOBool {cbool(ob[1])})'
 
 
-def describe(t, ptr, chain, lit, script):
-    return {'key_type': V.type_src(t), 'big_map': (f'id {ptr} with on-chain ' + str({V.value_src(k): z for k, z in chain.values()})) if ptr is not None
+def describe(t, ptr, chain, lit, script, vt=V.VT_INT):
+    return {'key_type': V.type_src(t), 'value_type': vt.src + ('' if vt.is_int else ' — values shown as codes: ' + ('ticket amount (0 = None)' if vt.ticket else 'index into ' + repr([x[0] for x in vt.lits]))), 'big_map': (f'id {ptr} with on-chain ' + str({V.value_src(k): z for k, z in chain.values()})) if ptr is not None
             else 'literal ' + str({V.value_src(k): z for k, z in lit}),
             'history': [f'{i[0].upper()} {V.value_src(i[1])}' + (f' := {opt_src(i[2])}' if len(i) > 2 else '') for i in script]}
 
@@ -350,7 +382,8 @@ def run(ctx: lib.Ctx) -> None:
     ctx.rule = ('one run_code call per case: key type among string/int/nat/bytes/pair/or/option/address/key_hash (nested), a universe of '
                 '3-5 keys differing in one leaf; the big_map is an id whose on-chain content is a random subset of the universe (60 %), '
                 'a sorted literal (25 %) or empty; history of up to 30 (quick) / 300 (thorough) UPDATE (set/remove), GET_AND_UPDATE, GET, MEM '
-                'over the universe. non-trivial = some key is updated at least twice, or a key that exists only on chain is updated/removed.')
+                'over the universe; value types int, bool, string, bytes, list/set/map, option, pair (the pytezos-falsy literal False/""/0x/{} drawn 45 % of the time, '
+                'also as ON-CHAIN value) and non-duplicable option (ticket string) (updates then one consuming MEM). non-trivial = some key is updated at least twice, or a key that exists only on chain is updated/removed.')
     n_cases = ctx.n(220, 2500)
     max_len = ctx.n(30, 300)
     cases, meta = [], []
@@ -360,12 +393,20 @@ def run(ctx: lib.Ctx) -> None:
     corpus.append((('string',), [a, b], None, {}, [], [('update', a, 1), ('update', b, 2), ('update', a, None), ('update', b, 3), ('update', a, 5), ('get', a)]))
     corpus.append((('string',), [a, b], 7, {V.canon(a): (a, 1), V.canon(b): (b, 2)}, [], [('update', a, 10), ('get', a), ('get', b), ('mem', a)]))
     corpus.append((('string',), [a, b], 7, {V.canon(a): (a, 1)}, [], [('update', a, None), ('get', a), ('update', a, 4), ('gau', a, None), ('mem', a), ('update', b, None)]))
+    # on-chain values that are empty collections / falsy (the node answers `[]`, `False`, `""`), removed and re-read
+    vl = next(v for v in V.VALUE_TYPES if v.src == '(list nat)')
+    vb = next(v for v in V.VALUE_TYPES if v.src == 'bool')
+    corpus = [c + (V.VT_INT,) for c in corpus]
+    corpus.append((('string',), [a, b], 7, {V.canon(a): (a, 0), V.canon(b): (b, 1)}, [], [('get', a), ('mem', a), ('update', a, None), ('mem', a), ('gau', b, 0), ('get', b)], vl))
+    corpus.append((('string',), [a, b], 0, {V.canon(a): (a, 0)}, [], [('gau', a, None), ('get', a), ('update', b, 0), ('mem', b), ('get', b)], vb))
+    corpus.append((('string',), [a, b], 7, {}, [], [('update', a, 2), ('update', b, 0), ('update', a, None), ('mem', b)], V.VT_TICKET))
     gen = corpus + [gen_case(rng, max_len) for _ in range(n_cases)]
     ctx.corpus_cases = len(corpus)
     reported = 0
-    for t, pool, ptr, chain, lit, script in gen:
-        res, src = run_impl(t, pool, ptr, chain, lit, script)
-        out = decode_impl(t, pool, script, res) if not isinstance(res, str) else res
+    tcases, tmeta = [], []
+    for t, pool, ptr, chain, lit, script, vt in gen:
+        res, src = run_impl(t, pool, ptr, chain, lit, script, vt)
+        out = decode_impl(t, pool, script, res, vt) if not isinstance(res, str) else res
         upd = {}
         chain_only = False
         for ins in script:
@@ -377,15 +418,21 @@ def run(ctx: lib.Ctx) -> None:
         ctx.case((t, ptr, tuple(sorted(map(repr, chain.values()))), tuple(map(repr, lit)), tuple(map(repr, script))),
                  nontrivial=chain_only or any(c >= 2 for c in upd.values()),
                  kind=('id' if ptr is not None else ('literal' if lit else 'empty')) + f':{t[0]}:len{len(script) // 10 * 10}',
-                 sample={**describe(t, ptr, chain, lit, script), 'output': out if isinstance(out, str) else {'obs': out['obs'][:10], 'action': out['action']}})
+                 sample={**describe(t, ptr, chain, lit, script, vt), 'output': out if isinstance(out, str) else {'obs': out['obs'][:10], 'action': out['action']}})
         for ins in script:
             ctx.dist['op:' + ins[0]] += 1
+        ctx.dist['values:' + vt.src] += 1
+        if ptr is not None and any(z == 0 and not vt.is_int for _, z in chain.values()):
+            ctx.dist['on-chain falsy/empty value'] += 1
         if isinstance(out, str):
             why = out
             coq_out = '(nil, nil, nil)'
             coq_bad_marker = True
         else:
-            why = oracle(t, pool, ptr, chain, lit, script, out)
+            why = oracle(t, pool, ptr, chain, lit, script, out, vt)
+            if why and why.startswith('KNOWN:') and ctx.finding(why[6:]):
+                ctx.known_hit(ctx.finding(why[6:]))
+                why = None
             coq_bad_marker = False
             coq_out = ('(' + clist(coq_obs(o) for o in out['obs']) + ', '
                        + clist(f'({V.value_coq(k)}, {V.cbt(h)}, {cZ(z)})' for k, h, z in out['items']) + ', '
@@ -393,23 +440,34 @@ def run(ctx: lib.Ctx) -> None:
         if why and reported < 3:
             reported += 1
             ctx.violation('big_map: ' + why,
-                          {**describe(t, ptr, chain, lit, script), 'observed': out, 'contract': src,
+                          {**describe(t, ptr, chain, lit, script, vt), 'observed': out, 'contract': src,
                            'repro': 'harness/c15.py run_impl(...): Interpreter.run_code(Unit, Pair <big_map> {}, contract, shell=StubShell(on-chain table), block_id="head")'})
         khtbl = clist(f'({V.value_coq(k)}, {V.cbt(script_expr(k))})' for k in pool)
         chtbl = clist(f'({V.cbt(script_expr(k))}, {cZ(z)})' for k, z in chain.values()) if ptr is not None else 'nil'
         inp = (f'({V.tables_coq(pool)}, {khtbl}, {chtbl}, {clist(f"({V.value_coq(k)}, {cZ(z)})" for k, z in lit)}, '
                f'{clist(coq_instr(i) for i in script)})')
-        cases.append((inp, coq_out))
-        meta.append((t, pool, ptr, chain, lit, script, out, why, src))
+        if vt.ticket:
+            # only the consuming MEM is observable; the emitted diff belongs to the fresh big_map put back into the storage
+            tcases.append((inp, clist(coq_obs(o) for o in out['obs']) if not isinstance(out, str) else 'nil'))
+            tmeta.append((t, pool, ptr, chain, lit, script, out, why, src, vt))
+        else:
+            cases.append((inp, coq_out))
+            meta.append((t, pool, ptr, chain, lit, script, out, why, src, vt))
     bad = V.par_mismatches(ctx, 'bigmap', IMPORTS, 'bm_case', 'bm_case_eqb',
                            'text_tables * list (val * bytes) * list (bytes * Z) * list (val * Z) * list bm_instr', 'bm_case_out',
                            cases, shard=ctx.n(60, 160))
+    tbad = V.par_mismatches(ctx, 'bigmapticket', IMPORTS, 'fun x => fst (fst (bm_case x))', 'list_eqb bm_obs_eqb',
+                            'text_tables * list (val * bytes) * list (bytes * Z) * list (val * Z) * list bm_instr', 'list bm_obs',
+                            tcases, shard=400)
+    meta = meta + tmeta
+    cases = cases + tcases
+    bad = bad + [len(meta) - len(tmeta) + i for i in tbad]
     bad = [i for i in bad if not meta[i][7]]      # property failures were reported above
     if bad and reported == 0:
-        t, pool, ptr, chain, lit, script, out, why, src = meta[bad[0]]
+        t, pool, ptr, chain, lit, script, out, why, src, vt = meta[bad[0]]
         ctx.violation('implementation no longer corresponds to the model the theorems are about',
                       {'correspondence': 'C15/BigMapType.get,update,aggregate_lazy_diff via run_code vs Michelson.BigMap.bm_case',
-                       **describe(t, ptr, chain, lit, script), 'observed': out,
+                       **describe(t, ptr, chain, lit, script, vt), 'observed': out,
                        'model': ctx.coq_eval(IMPORTS, f'bm_case {cases[bad[0]][0]}')[:3000], 'disagreements': len(bad)}, found=False)
     ctx.extra['cases'] = len(cases)
     ctx.extra['instructions_executed'] = sum(len(m[5]) for m in meta)
